@@ -129,6 +129,32 @@ static void fill_buf(rng_t* r, const bufspec_t* b, void* p, size_t bytes) {
         }
       break;
     }
+    case F_RATIO: {
+      // rounding-sensitive ratios (near ties incl. 0.5 -+ ulps, quarter points, integers, random), scaled by fscale
+      double* x = p;
+      const double top = ldexp(1.0, (int)b->fillarg);
+      for (size_t i = 0; i < bytes / 8; i++) {
+        double v;
+        const uint64_t t = rng_u64(r);
+        double k = (t & 0x300) ? (double)((t >> 12) & 0xFFFFF) : 0.0;  // integer part 0 for a quarter of the near-ties
+        switch (t % 6) {
+          case 0:
+          case 1: {
+            v = k + 0.5;
+            int steps = 1 + (int)((t >> 40) & 1);
+            for (int q = 0; q < steps; q++) v = (t & 0x80) ? nextafter(v, 0) : nextafter(v, INFINITY);
+            break;
+          }
+          case 2: v = k + ((t & 0x80) ? 0.25 : 0.75); break;
+          case 3: v = k; break;
+          case 4: v = nextafter(top, 0); break;
+          default: v = rng_unit(r) * top; break;
+        }
+        while (v >= top) v *= 0.5;
+        x[i] = ((t >> 50) & 1 ? -v : v) * (b->fscale != 0 ? b->fscale : 1.0);
+      }
+      break;
+    }
     case F_I32: {
       int32_t* x = p;
       for (size_t i = 0; i < bytes / 4; i++) x[i] = (int32_t)rng_u64(r);
@@ -193,7 +219,53 @@ void op_exec(const opdef_t* o, const env_t* env, uint64_t seed, int prefill, uns
         if (pl.b[i].is_zvec) zvec_snap(&sn[i], &z[i]);
         else snap_take(&sn[i], p[i], pl.b[i].bytes);
       }
+  memcpy(res->u, pl.u, sizeof res->u);
+  memcpy(res->d, pl.d, sizeof res->d);
+  if (monitors & MON_CAPTURE) {
+    for (int pass = 0; pass < 2; pass++) {
+      size_t off = 0;
+      for (int i = 0; i < pl.nb; i++) {
+        bufspec_t* b = &pl.b[i];
+        if (b->role != R_IN && b->role != R_INOUT) continue;
+        if (b->is_zvec) {
+          for (uint64_t l = 0; l < b->size; l++) {
+            if (pass) memcpy(res->cap_in + off, zvec_limb(&z[i], l), b->n * 8);
+            off += b->n * 8;
+          }
+        } else {
+          if (pass) memcpy(res->cap_in + off, p[i], b->bytes);
+          off += b->bytes;
+        }
+      }
+      if (!pass) {
+        res->cap_in = malloc(off ? off : 1);
+        res->cap_in_bytes = off;
+      }
+    }
+  }
   o->call(&pl, p, env);
+  if (monitors & MON_CAPTURE) {
+    for (int pass = 0; pass < 2; pass++) {
+      size_t off = 0;
+      for (int i = 0; i < pl.nb; i++) {
+        bufspec_t* b = &pl.b[i];
+        if (b->role != R_OUT && b->role != R_INOUT) continue;
+        if (b->is_zvec) {
+          for (uint64_t l = 0; l < b->size; l++) {
+            if (pass) memcpy(res->cap_out + off, zvec_limb(&z[i], l), b->n * 8);
+            off += b->n * 8;
+          }
+        } else {
+          if (pass) memcpy(res->cap_out + off, p[i], b->bytes);
+          off += b->bytes;
+        }
+      }
+      if (!pass) {
+        res->cap_out = malloc(off ? off : 1);
+        res->cap_out_bytes = off;
+      }
+    }
+  }
   uint64_t h = 0x1234;
   for (int i = 0; i < pl.nb; i++) {
     bufspec_t* b = &pl.b[i];
@@ -716,6 +788,105 @@ static void call_fresh_cplx_to_tnx32(const opplan_t* pl, void* const p[], const 
   free(t);
 }
 
+// ================================================================= direct kernel variants (pairs for C07)
+#define M_AT_LEAST(pl, e, k) if ((e)->m < (k)) { (pl)->skip = 1; return; }
+static void plan_inplace_d8(opplan_t* pl, rng_t* r, const env_t* e) { M_AT_LEAST(pl, e, 8) plan_inplace_d(pl, r, e); }
+TCALL(k_reim_fft_ref, reim_fft_ref(e->reim_fft, p[0])) TCALL(k_reim_fft_avx, reim_fft_avx2_fma(e->reim_fft, p[0]))
+TCALL(k_reim_ifft_ref, reim_ifft_ref(e->reim_ifft, p[0])) TCALL(k_reim_ifft_avx, reim_ifft_avx2_fma(e->reim_ifft, p[0]))
+TCALL(k_cplx_fft_ref, cplx_fft_ref(e->cplx_fft, p[0])) TCALL(k_cplx_fft_avx, cplx_fft_avx2_fma(e->cplx_fft, p[0]))
+TCALL(k_cplx_ifft_ref, cplx_ifft_ref(e->cplx_ifft, p[0])) TCALL(k_cplx_ifft_avx, cplx_ifft_avx2_fma(e->cplx_ifft, p[0]))
+static void plan_mul_d2(opplan_t* pl, rng_t* r, const env_t* e) { M_AT_LEAST(pl, e, 2) plan_mul_d(pl, r, e); }
+static void plan_mul_d4(opplan_t* pl, rng_t* r, const env_t* e) { M_AT_LEAST(pl, e, 4) plan_mul_d(pl, r, e); }
+static void plan_mul_d8(opplan_t* pl, rng_t* r, const env_t* e) { M_AT_LEAST(pl, e, 8) plan_mul_d(pl, r, e); }
+static void plan_addmul_d2(opplan_t* pl, rng_t* r, const env_t* e) { M_AT_LEAST(pl, e, 2) plan_addmul_d(pl, r, e); }
+static void plan_addmul_d4(opplan_t* pl, rng_t* r, const env_t* e) { M_AT_LEAST(pl, e, 4) plan_addmul_d(pl, r, e); }
+static void plan_addmul_d8(opplan_t* pl, rng_t* r, const env_t* e) { M_AT_LEAST(pl, e, 8) plan_addmul_d(pl, r, e); }
+static void plan_addmul_d8_512(opplan_t* pl, rng_t* r, const env_t* e) { if (!__builtin_cpu_supports("avx512f")) { pl->skip = 1; return; } plan_addmul_d8(pl, r, e); }
+TCALL(k_reim_mul_ref, reim_fftvec_mul_ref(e->reim_mul, p[0], p[1], p[2])) TCALL(k_reim_mul_fma, reim_fftvec_mul_fma(e->reim_mul, p[0], p[1], p[2]))
+TCALL(k_reim_addmul_ref, reim_fftvec_addmul_ref(e->reim_addmul, p[0], p[1], p[2])) TCALL(k_reim_addmul_fma, reim_fftvec_addmul_fma(e->reim_addmul, p[0], p[1], p[2]))
+TCALL(k_cplx_mul_ref, cplx_fftvec_mul_ref(e->cplx_mul, p[0], p[1], p[2])) TCALL(k_cplx_mul_fma, cplx_fftvec_mul_fma(e->cplx_mul, p[0], p[1], p[2]))
+TCALL(k_cplx_addmul_ref, cplx_fftvec_addmul_ref(e->cplx_addmul, p[0], p[1], p[2])) TCALL(k_cplx_addmul_fma, cplx_fftvec_addmul_fma(e->cplx_addmul, p[0], p[1], p[2]))
+TCALL(k_cplx_addmul_sse, cplx_fftvec_addmul_sse(e->cplx_addmul, p[0], p[1], p[2])) TCALL(k_cplx_addmul_512, cplx_fftvec_addmul_avx512(e->cplx_addmul, p[0], p[1], p[2]))
+TCALL(k_r4_mul_ref, reim4_fftvec_mul_ref(e->r4_mul, p[0], p[1], p[2])) TCALL(k_r4_mul_fma, reim4_fftvec_mul_fma(e->r4_mul, p[0], p[1], p[2]))
+TCALL(k_r4_addmul_ref, reim4_fftvec_addmul_ref(e->r4_addmul, p[0], p[1], p[2])) TCALL(k_r4_addmul_fma, reim4_fftvec_addmul_fma(e->r4_addmul, p[0], p[1], p[2]))
+TCALL(k_r4_from_ref, reim4_from_cplx_ref(e->r4_from, p[0], p[1])) TCALL(k_r4_from_fma, reim4_from_cplx_fma(e->r4_from, p[0], p[1]))
+TCALL(k_r4_to_ref, reim4_to_cplx_ref(e->r4_to, p[0], p[1])) TCALL(k_r4_to_fma, reim4_to_cplx_fma(e->r4_to, p[0], p[1]))
+static void plan_from_znx64_2(opplan_t* pl, rng_t* r, const env_t* e) { M_AT_LEAST(pl, e, 2) plan_from_znx64(pl, r, e); }
+TCALL(k_from_znx64_ref, reim_from_znx64_ref(e->from_znx64, p[0], p[1])) TCALL(k_from_znx64_fma, reim_from_znx64_bnd50_fma(e->from_znx64, p[0], p[1]))
+// double -> int64 with a table made for the drawn divisor (bound 50 values for the fast kernel, 52 for the wide one)
+static void plan_to_znx64_k(opplan_t* pl, rng_t* r, const env_t* e) {
+  M_AT_LEAST(pl, e, 2)
+  static const int DE[] = {-3, 0, 5, 12};
+  pl->u[0] = (uint64_t)(rng_u64(r) % 4);
+  pl->d[0] = ldexp(1.0, DE[pl->u[0]]);
+  B_RAW(pl, R_OUT, F_NONE, 0, 2 * e->m * 8, 8);
+  int bi = B_RAW(pl, R_IN, F_RATIO, 50, 2 * e->m * 8, 8);  // near-ties, quarter points, boundary: rounding is exercised
+  pl->b[bi].fscale = pl->d[0];
+}
+#define TOZ(NAME, FN)                                                                              \
+  static void call_##NAME(const opplan_t* pl, void* const p[], const env_t* e) {                 \
+    REIM_TO_ZNX64_PRECOMP* t = new_reim_to_znx64_precomp((uint32_t)e->m, pl->d[0], 63);            \
+    FN(t, p[0], p[1]);                                                                             \
+    free(t);                                                                                       \
+  }
+TOZ(k_to_znx64_ref, reim_to_znx64_ref) TOZ(k_to_znx64_b50, reim_to_znx64_avx2_bnd50_fma) TOZ(k_to_znx64_b63, reim_to_znx64_avx2_bnd63_fma)
+static void plan_to_tnx_4(opplan_t* pl, rng_t* r, const env_t* e) { M_AT_LEAST(pl, e, 4) plan_to_tnx(pl, r, e); }
+TCALL(k_to_tnx_ref, reim_to_tnx_ref(e->to_tnx, p[0], p[1])) TCALL(k_to_tnx_avx, reim_to_tnx_avx(e->to_tnx, p[0], p[1]))
+static void plan_cplx_from32_8(opplan_t* pl, rng_t* r, const env_t* e) { M_AT_LEAST(pl, e, 8) plan_cplx_from32(pl, r, e); }
+static void plan_cplx_to_tnx32_8(opplan_t* pl, rng_t* r, const env_t* e) { M_AT_LEAST(pl, e, 8) plan_cplx_to_tnx32(pl, r, e); }
+TCALL(k_cfz_ref, cplx_from_znx32_ref(e->cplx_from_znx32, p[0], p[1])) TCALL(k_cfz_avx, cplx_from_znx32_avx2_fma(e->cplx_from_znx32, p[0], p[1]))
+TCALL(k_cft_ref, cplx_from_tnx32_ref(e->cplx_from_tnx32, p[0], p[1])) TCALL(k_cft_avx, cplx_from_tnx32_avx2_fma(e->cplx_from_tnx32, p[0], p[1]))
+TCALL(k_ctt_ref, cplx_to_tnx32_ref(e->cplx_to_tnx32, p[0], p[1])) TCALL(k_ctt_avx, cplx_to_tnx32_avx2_fma(e->cplx_to_tnx32, p[0], p[1]))
+// vec_znx kernels ref / avx on the FFT64 module (only nn is read)
+#define VK3(NAME, FN) static void call_##NAME(const opplan_t* pl, void* const p[], const env_t* e) { FN(e->fft64, p[0], pl->b[0].size, pl->b[0].sl, p[1], pl->b[1].size, pl->b[1].sl, p[2], pl->b[2].size, pl->b[2].sl); }
+#define VK2(NAME, FN) static void call_##NAME(const opplan_t* pl, void* const p[], const env_t* e) { FN(e->fft64, p[0], pl->b[0].size, pl->b[0].sl, p[1], pl->b[1].size, pl->b[1].sl); }
+VK3(k_vadd_ref, vec_znx_add_ref) VK3(k_vadd_avx, vec_znx_add_avx) VK3(k_vsub_ref, vec_znx_sub_ref) VK3(k_vsub_avx, vec_znx_sub_avx)
+VK2(k_vneg_ref, vec_znx_negate_ref) VK2(k_vneg_avx, vec_znx_negate_avx)
+// vmp ref / avx
+static void call_k_vmp_prep_ref(const opplan_t* pl, void* const p[], const env_t* e) { fft64_vmp_prepare_contiguous_ref(e->fft64, p[0], p[1], pl->u[0], pl->u[1], p[2]); }
+static void call_k_vmp_prep_avx(const opplan_t* pl, void* const p[], const env_t* e) { fft64_vmp_prepare_contiguous_avx(e->fft64, p[0], p[1], pl->u[0], pl->u[1], p[2]); }
+static void call_k_vmp_apply_ref(const opplan_t* pl, void* const p[], const env_t* e) {
+  fft64_vmp_prepare_contiguous_ref(e->fft64, p[1], p[2], pl->u[0], pl->u[1], p[3]);
+  fft64_vmp_apply_dft_ref(e->fft64, p[0], pl->u[3], p[4], pl->u[2], pl->b[4].sl, p[1], pl->u[0], pl->u[1], p[5]);
+}
+static void call_k_vmp_apply_avx(const opplan_t* pl, void* const p[], const env_t* e) {
+  fft64_vmp_prepare_contiguous_avx(e->fft64, p[1], p[2], pl->u[0], pl->u[1], p[3]);
+  fft64_vmp_apply_dft_avx(e->fft64, p[0], pl->u[3], p[4], pl->u[2], pl->b[4].sl, p[1], pl->u[0], pl->u[1], p[5]);
+}
+static void call_k_vmp_d2d_ref(const opplan_t* pl, void* const p[], const env_t* e) {
+  fft64_vmp_prepare_contiguous_ref(e->fft64, p[1], p[2], pl->u[0], pl->u[1], p[3]);
+  fft64_vmp_apply_dft_to_dft_ref(e->fft64, p[0], pl->u[3], p[4], pl->u[2], p[1], pl->u[0], pl->u[1], p[5]);
+}
+static void call_k_vmp_d2d_avx(const opplan_t* pl, void* const p[], const env_t* e) {
+  fft64_vmp_prepare_contiguous_avx(e->fft64, p[1], p[2], pl->u[0], pl->u[1], p[3]);
+  fft64_vmp_apply_dft_to_dft_avx(e->fft64, p[0], pl->u[3], p[4], pl->u[2], p[1], pl->u[0], pl->u[1], p[5]);
+}
+// 16/8/4-point leaves with tables from the library's fill functions (entry power 1/4 = full transform of that size)
+static void plan_leaf(opplan_t* pl, rng_t* r, const env_t* e, uint64_t lm) {
+  (void)r; (void)e;
+  pl->u[0] = lm;
+  B_RAW(pl, R_INOUT, F_DBL, 4, 2 * lm * 8, 8);
+  B_RAW(pl, R_SCRATCH, F_NONE, 0, 4096, 64);
+}
+static void plan_leaf16(opplan_t* pl, rng_t* r, const env_t* e) { plan_leaf(pl, r, e, 16); }
+static void plan_leaf8(opplan_t* pl, rng_t* r, const env_t* e) { plan_leaf(pl, r, e, 8); }
+static void plan_leaf4(opplan_t* pl, rng_t* r, const env_t* e) { plan_leaf(pl, r, e, 4); }
+#define LEAF(NAME, FILL, FN)                                                                      \
+  static void call_##NAME(const opplan_t* pl, void* const p[], const env_t* e) {                \
+    (void)e; double* w = p[1]; FILL(0.25, &w); double* d = p[0]; FN(d, d + pl->u[0], p[1]);        \
+  }
+LEAF(l_fft16_ref, fill_reim_fft16_omegas, reim_fft16_ref) LEAF(l_fft16_avx, fill_reim_fft16_omegas, reim_fft16_avx_fma)
+LEAF(l_ifft16_ref, fill_reim_ifft16_omegas, reim_ifft16_ref) LEAF(l_ifft16_avx, fill_reim_ifft16_omegas, reim_ifft16_avx_fma)
+LEAF(l_fft8_ref, fill_reim_fft8_omegas, reim_fft8_ref) LEAF(l_fft8_avx, fill_reim_fft8_omegas, reim_fft8_avx_fma)
+LEAF(l_ifft8_ref, fill_reim_ifft8_omegas, reim_ifft8_ref) LEAF(l_ifft8_avx, fill_reim_ifft8_omegas, reim_ifft8_avx_fma)
+LEAF(l_fft4_ref, fill_reim_fft4_omegas, reim_fft4_ref) LEAF(l_fft4_avx, fill_reim_fft4_omegas, reim_fft4_avx_fma)
+LEAF(l_ifft4_ref, fill_reim_ifft4_omegas, reim_ifft4_ref) LEAF(l_ifft4_avx, fill_reim_ifft4_omegas, reim_ifft4_avx_fma)
+extern void cplx_fft16_precomp(const double entry_pwr, CPLX** omg);
+extern void cplx_ifft16_precomp(const double entry_pwr, CPLX** omg);
+#define CLEAF(NAME, FILL, FN) static void call_##NAME(const opplan_t* pl, void* const p[], const env_t* e) { (void)pl; (void)e; CPLX* w = p[1]; FILL(0.25, &w); FN(p[0], p[1]); }
+CLEAF(l_cfft16_ref, cplx_fft16_precomp, cplx_fft16_ref) CLEAF(l_cfft16_avx, cplx_fft16_precomp, cplx_fft16_avx_fma)
+CLEAF(l_cifft16_ref, cplx_ifft16_precomp, cplx_ifft16_ref) CLEAF(l_cifft16_avx, cplx_ifft16_precomp, cplx_ifft16_avx_fma)
+
 #define NTTV(NAME) plan_##NAME##_ntt
 const opdef_t OPS[] = {
     {"vec_znx_zero", OPF_FFT64, plan_zero, call_zero}, {"vec_znx_zero@ntt120", OPF_NTT120, NTTV(zero), call_zero},
@@ -751,22 +922,22 @@ const opdef_t OPS[] = {
     {"reim4_fftvec_mul", OPF_TABLE, plan_mul_r4, call_r4_mul}, {"reim4_fftvec_addmul", OPF_TABLE, plan_addmul_r4, call_r4_addmul},
     {"reim4_from_cplx", OPF_TABLE, plan_conv_r4, call_r4_from}, {"reim4_to_cplx", OPF_TABLE, plan_conv_r4, call_r4_to},
     {"q120_ntt_bb_avx2", OPF_TABLE, plan_ntt, call_q120_ntt}, {"q120_intt_bb_avx2", OPF_TABLE, plan_ntt, call_q120_intt},
-    {"q120_vec_mat1col_product_baa_ref", OPF_TABLE, plan_baa, call_baa_ref}, {"q120_vec_mat1col_product_baa_avx2", OPF_TABLE | OPF_AVX, plan_baa, call_baa_avx2},
-    {"q120_vec_mat1col_product_bbb_ref", OPF_TABLE, plan_bbb, call_bbb_ref}, {"q120_vec_mat1col_product_bbb_avx2", OPF_TABLE | OPF_AVX, plan_bbb, call_bbb_avx2},
-    {"q120_vec_mat1col_product_bbc_ref", OPF_TABLE, plan_bbc, call_bbc_ref}, {"q120_vec_mat1col_product_bbc_avx2", OPF_TABLE | OPF_AVX, plan_bbc, call_bbc_avx2},
-    {"q120x2_vec_mat1col_product_bbc_ref", OPF_TABLE, plan_x2_1, call_x2_1_ref}, {"q120x2_vec_mat1col_product_bbc_avx2", OPF_TABLE | OPF_AVX, plan_x2_1, call_x2_1_avx2},
-    {"q120x2_vec_mat2cols_product_bbc_ref", OPF_TABLE, plan_x2_2, call_x2_2_ref}, {"q120x2_vec_mat2cols_product_bbc_avx2", OPF_TABLE | OPF_AVX, plan_x2_2, call_x2_2_avx2},
+    {"q120_vec_mat1col_product_baa_ref", OPF_TABLE, plan_baa, call_baa_ref}, {"q120_vec_mat1col_product_baa_avx2", OPF_TABLE | OPF_AVX, plan_baa, call_baa_avx2, "q120_vec_mat1col_product_baa_ref"},
+    {"q120_vec_mat1col_product_bbb_ref", OPF_TABLE, plan_bbb, call_bbb_ref}, {"q120_vec_mat1col_product_bbb_avx2", OPF_TABLE | OPF_AVX, plan_bbb, call_bbb_avx2, "q120_vec_mat1col_product_bbb_ref"},
+    {"q120_vec_mat1col_product_bbc_ref", OPF_TABLE, plan_bbc, call_bbc_ref}, {"q120_vec_mat1col_product_bbc_avx2", OPF_TABLE | OPF_AVX, plan_bbc, call_bbc_avx2, "q120_vec_mat1col_product_bbc_ref"},
+    {"q120x2_vec_mat1col_product_bbc_ref", OPF_TABLE, plan_x2_1, call_x2_1_ref}, {"q120x2_vec_mat1col_product_bbc_avx2", OPF_TABLE | OPF_AVX, plan_x2_1, call_x2_1_avx2, "q120x2_vec_mat1col_product_bbc_ref"},
+    {"q120x2_vec_mat2cols_product_bbc_ref", OPF_TABLE, plan_x2_2, call_x2_2_ref}, {"q120x2_vec_mat2cols_product_bbc_avx2", OPF_TABLE | OPF_AVX, plan_x2_2, call_x2_2_avx2, "q120x2_vec_mat2cols_product_bbc_ref"},
     {"q120_b_from_znx64_simple", OPF_KERNEL, plan_b_from_znx64, call_b_from_znx64}, {"q120_c_from_znx64_simple", OPF_KERNEL, plan_b_from_znx64, call_c_from_znx64},
     {"q120_c_from_b_simple", OPF_KERNEL, plan_c_from_b, call_c_from_b}, {"q120_b_to_znx128_simple", OPF_KERNEL, plan_b_to_znx128, call_b_to_znx128},
     {"q120_add_bbb_simple", OPF_KERNEL, plan_add_bbb, call_add_bbb}, {"q120_add_ccc_simple", OPF_KERNEL, plan_add_ccc, call_add_ccc},
     {"q120x2_extract_1blk_from_contiguous_q120b_ref", OPF_KERNEL, plan_q_extract, call_q_extract_contig},
     {"q120x2_extract_1blk_from_q120b_ref", OPF_KERNEL, plan_q_extract1, call_q_extract1b}, {"q120x2_extract_1blk_from_q120c_ref", OPF_KERNEL, plan_q_extract1, call_q_extract1c},
     {"q120x2b_save_1blk_to_q120b_ref", OPF_KERNEL, plan_q_save, call_q_save},
-    {"znx_add_i64_ref", OPF_KERNEL, plan_k3, call_znx_add_ref}, {"znx_add_i64_avx", OPF_KERNEL | OPF_AVX, plan_k3, call_znx_add_avx},
-    {"znx_sub_i64_ref", OPF_KERNEL, plan_k3, call_znx_sub_ref}, {"znx_sub_i64_avx", OPF_KERNEL | OPF_AVX, plan_k3, call_znx_sub_avx},
-    {"znx_negate_i64_ref", OPF_KERNEL, plan_k2, call_znx_neg_ref}, {"znx_negate_i64_avx", OPF_KERNEL | OPF_AVX, plan_k2, call_znx_neg_avx},
+    {"znx_add_i64_ref", OPF_KERNEL, plan_k3, call_znx_add_ref}, {"znx_add_i64_avx", OPF_KERNEL | OPF_AVX, plan_k3, call_znx_add_avx, "znx_add_i64_ref"},
+    {"znx_sub_i64_ref", OPF_KERNEL, plan_k3, call_znx_sub_ref}, {"znx_sub_i64_avx", OPF_KERNEL | OPF_AVX, plan_k3, call_znx_sub_avx, "znx_sub_i64_ref"},
+    {"znx_negate_i64_ref", OPF_KERNEL, plan_k2, call_znx_neg_ref}, {"znx_negate_i64_avx", OPF_KERNEL | OPF_AVX, plan_k2, call_znx_neg_avx, "znx_negate_i64_ref"},
     {"znx_copy_i64_ref", OPF_KERNEL, plan_k2, call_znx_copy_ref}, {"znx_zero_i64_ref", OPF_KERNEL, plan_k2, call_znx_zero_ref},
-    {"rnx_divide_by_m_ref", OPF_KERNEL, plan_k2d, call_rnx_div_ref}, {"rnx_divide_by_m_avx", OPF_KERNEL | OPF_AVX, plan_k2d, call_rnx_div_avx},
+    {"rnx_divide_by_m_ref", OPF_KERNEL, plan_k2d, call_rnx_div_ref}, {"rnx_divide_by_m_avx", OPF_KERNEL | OPF_AVX, plan_k2d, call_rnx_div_avx, "rnx_divide_by_m_ref"},
     {"znx_rotate_i64", OPF_KERNEL, plan_k2, call_znx_rotate}, {"rnx_rotate_f64", OPF_KERNEL, plan_k2d, call_rnx_rotate},
     {"znx_rotate_inplace_i64", OPF_KERNEL, plan_k1, call_znx_rotate_ip}, {"rnx_rotate_inplace_f64", OPF_KERNEL, plan_k1d, call_rnx_rotate_ip},
     {"znx_automorphism_i64", OPF_KERNEL, plan_k2, call_znx_auto}, {"rnx_automorphism_f64", OPF_KERNEL, plan_k2d, call_rnx_auto},
@@ -774,13 +945,48 @@ const opdef_t OPS[] = {
     {"znx_mul_xp_minus_one", OPF_KERNEL, plan_k2, call_znx_mulxp}, {"rnx_mul_xp_minus_one", OPF_KERNEL, plan_k2d, call_rnx_mulxp},
     {"rnx_mul_xp_minus_one_inplace", OPF_KERNEL, plan_k1d, call_rnx_mulxp_ip},
     {"znx_normalize", OPF_KERNEL, plan_znx_normalize, call_znx_normalize},
-    {"reim4_extract_1blk_from_contiguous_reim_sl_ref", OPF_KERNEL, plan_r4_extract, call_r4_ext_sl_ref}, {"reim4_extract_1blk_from_contiguous_reim_sl_avx", OPF_KERNEL | OPF_AVX, plan_r4_extract, call_r4_ext_sl_avx},
-    {"reim4_extract_1blk_from_contiguous_reim_ref", OPF_KERNEL, plan_r4_extract_c, call_r4_ext_c_ref}, {"reim4_extract_1blk_from_contiguous_reim_avx", OPF_KERNEL | OPF_AVX, plan_r4_extract_c, call_r4_ext_c_avx},
-    {"reim4_extract_1blk_from_reim_ref", OPF_KERNEL, plan_r4_extract1, call_r4_ext1_ref}, {"reim4_extract_1blk_from_reim_avx", OPF_KERNEL | OPF_AVX, plan_r4_extract1, call_r4_ext1_avx},
-    {"reim4_save_1blk_to_reim_ref", OPF_KERNEL, plan_r4_save, call_r4_save_ref}, {"reim4_save_1blk_to_reim_avx", OPF_KERNEL | OPF_AVX, plan_r4_save, call_r4_save_avx},
-    {"reim4_vec_mat1col_product_ref", OPF_KERNEL, plan_r4_dot1, call_r4_dot1_ref}, {"reim4_vec_mat1col_product_avx2", OPF_KERNEL | OPF_AVX, plan_r4_dot1, call_r4_dot1_avx},
-    {"reim4_vec_mat2cols_product_ref", OPF_KERNEL, plan_r4_dot2, call_r4_dot2_ref}, {"reim4_vec_mat2cols_product_avx2", OPF_KERNEL | OPF_AVX, plan_r4_dot2, call_r4_dot2_avx},
+    {"reim4_extract_1blk_from_contiguous_reim_sl_ref", OPF_KERNEL, plan_r4_extract, call_r4_ext_sl_ref}, {"reim4_extract_1blk_from_contiguous_reim_sl_avx", OPF_KERNEL | OPF_AVX, plan_r4_extract, call_r4_ext_sl_avx, "reim4_extract_1blk_from_contiguous_reim_sl_ref"},
+    {"reim4_extract_1blk_from_contiguous_reim_ref", OPF_KERNEL, plan_r4_extract_c, call_r4_ext_c_ref}, {"reim4_extract_1blk_from_contiguous_reim_avx", OPF_KERNEL | OPF_AVX, plan_r4_extract_c, call_r4_ext_c_avx, "reim4_extract_1blk_from_contiguous_reim_ref"},
+    {"reim4_extract_1blk_from_reim_ref", OPF_KERNEL, plan_r4_extract1, call_r4_ext1_ref}, {"reim4_extract_1blk_from_reim_avx", OPF_KERNEL | OPF_AVX, plan_r4_extract1, call_r4_ext1_avx, "reim4_extract_1blk_from_reim_ref"},
+    {"reim4_save_1blk_to_reim_ref", OPF_KERNEL, plan_r4_save, call_r4_save_ref}, {"reim4_save_1blk_to_reim_avx", OPF_KERNEL | OPF_AVX, plan_r4_save, call_r4_save_avx, "reim4_save_1blk_to_reim_ref"},
+    {"reim4_vec_mat1col_product_ref", OPF_KERNEL, plan_r4_dot1, call_r4_dot1_ref}, {"reim4_vec_mat1col_product_avx2", OPF_KERNEL | OPF_AVX, plan_r4_dot1, call_r4_dot1_avx, "reim4_vec_mat1col_product_ref"},
+    {"reim4_vec_mat2cols_product_ref", OPF_KERNEL, plan_r4_dot2, call_r4_dot2_ref}, {"reim4_vec_mat2cols_product_avx2", OPF_KERNEL | OPF_AVX, plan_r4_dot2, call_r4_dot2_avx, "reim4_vec_mat2cols_product_ref"},
     {"reim4_convolution_ref", OPF_KERNEL, plan_r4_conv, call_r4_conv},
+    {"reim_fft_ref", OPF_KERNEL, plan_inplace_d, call_k_reim_fft_ref}, {"reim_fft_avx2_fma", OPF_KERNEL | OPF_AVX, plan_inplace_d, call_k_reim_fft_avx, "reim_fft_ref"},
+    {"reim_ifft_ref", OPF_KERNEL, plan_inplace_d, call_k_reim_ifft_ref}, {"reim_ifft_avx2_fma", OPF_KERNEL | OPF_AVX, plan_inplace_d, call_k_reim_ifft_avx, "reim_ifft_ref"},
+    {"cplx_fft_ref", OPF_KERNEL, plan_inplace_d8, call_k_cplx_fft_ref}, {"cplx_fft_avx2_fma", OPF_KERNEL | OPF_AVX, plan_inplace_d8, call_k_cplx_fft_avx, "cplx_fft_ref"},
+    {"cplx_ifft_ref", OPF_KERNEL, plan_inplace_d8, call_k_cplx_ifft_ref}, {"cplx_ifft_avx2_fma", OPF_KERNEL | OPF_AVX, plan_inplace_d8, call_k_cplx_ifft_avx, "cplx_ifft_ref"},
+    {"reim_fftvec_mul_ref", OPF_KERNEL, plan_mul_d4, call_k_reim_mul_ref}, {"reim_fftvec_mul_fma", OPF_KERNEL | OPF_AVX, plan_mul_d4, call_k_reim_mul_fma, "reim_fftvec_mul_ref"},
+    {"reim_fftvec_addmul_ref", OPF_KERNEL, plan_addmul_d4, call_k_reim_addmul_ref}, {"reim_fftvec_addmul_fma", OPF_KERNEL | OPF_AVX, plan_addmul_d4, call_k_reim_addmul_fma, "reim_fftvec_addmul_ref"},
+    {"cplx_fftvec_mul_ref", OPF_KERNEL, plan_mul_d8, call_k_cplx_mul_ref}, {"cplx_fftvec_mul_fma", OPF_KERNEL | OPF_AVX, plan_mul_d8, call_k_cplx_mul_fma, "cplx_fftvec_mul_ref"},
+    {"cplx_fftvec_addmul_ref", OPF_KERNEL, plan_addmul_d8, call_k_cplx_addmul_ref}, {"cplx_fftvec_addmul_fma", OPF_KERNEL | OPF_AVX, plan_addmul_d8, call_k_cplx_addmul_fma, "cplx_fftvec_addmul_ref"},
+    {"cplx_fftvec_addmul_sse", OPF_KERNEL | OPF_AVX, plan_addmul_d8, call_k_cplx_addmul_sse, "cplx_fftvec_addmul_ref"},
+    {"cplx_fftvec_addmul_avx512", OPF_KERNEL | OPF_AVX, plan_addmul_d8_512, call_k_cplx_addmul_512, "cplx_fftvec_addmul_ref"},
+    {"reim4_fftvec_mul_ref", OPF_KERNEL, plan_mul_r4, call_k_r4_mul_ref}, {"reim4_fftvec_mul_fma", OPF_KERNEL | OPF_AVX, plan_mul_r4, call_k_r4_mul_fma, "reim4_fftvec_mul_ref"},
+    {"reim4_fftvec_addmul_ref", OPF_KERNEL, plan_addmul_r4, call_k_r4_addmul_ref}, {"reim4_fftvec_addmul_fma", OPF_KERNEL | OPF_AVX, plan_addmul_r4, call_k_r4_addmul_fma, "reim4_fftvec_addmul_ref"},
+    {"reim4_from_cplx_ref", OPF_KERNEL, plan_conv_r4, call_k_r4_from_ref}, {"reim4_from_cplx_fma", OPF_KERNEL | OPF_AVX, plan_conv_r4, call_k_r4_from_fma, "reim4_from_cplx_ref"},
+    {"reim4_to_cplx_ref", OPF_KERNEL, plan_conv_r4, call_k_r4_to_ref}, {"reim4_to_cplx_fma", OPF_KERNEL | OPF_AVX, plan_conv_r4, call_k_r4_to_fma, "reim4_to_cplx_ref"},
+    {"reim_from_znx64_ref", OPF_KERNEL, plan_from_znx64_2, call_k_from_znx64_ref}, {"reim_from_znx64_bnd50_fma", OPF_KERNEL | OPF_AVX, plan_from_znx64_2, call_k_from_znx64_fma, "reim_from_znx64_ref"},
+    {"reim_to_znx64_ref", OPF_KERNEL, plan_to_znx64_k, call_k_to_znx64_ref}, {"reim_to_znx64_avx2_bnd50_fma", OPF_KERNEL | OPF_AVX, plan_to_znx64_k, call_k_to_znx64_b50, "reim_to_znx64_ref"},
+    {"reim_to_znx64_avx2_bnd63_fma", OPF_KERNEL | OPF_AVX, plan_to_znx64_k, call_k_to_znx64_b63, "reim_to_znx64_ref"},
+    {"reim_to_tnx_ref", OPF_KERNEL, plan_to_tnx_4, call_k_to_tnx_ref}, {"reim_to_tnx_avx", OPF_KERNEL | OPF_AVX, plan_to_tnx_4, call_k_to_tnx_avx, "reim_to_tnx_ref"},
+    {"cplx_from_znx32_ref", OPF_KERNEL, plan_cplx_from32_8, call_k_cfz_ref}, {"cplx_from_znx32_avx2_fma", OPF_KERNEL | OPF_AVX, plan_cplx_from32_8, call_k_cfz_avx, "cplx_from_znx32_ref"},
+    {"cplx_from_tnx32_ref", OPF_KERNEL, plan_cplx_from32_8, call_k_cft_ref}, {"cplx_from_tnx32_avx2_fma", OPF_KERNEL | OPF_AVX, plan_cplx_from32_8, call_k_cft_avx, "cplx_from_tnx32_ref"},
+    {"cplx_to_tnx32_ref", OPF_KERNEL, plan_cplx_to_tnx32_8, call_k_ctt_ref}, {"cplx_to_tnx32_avx2_fma", OPF_KERNEL | OPF_AVX, plan_cplx_to_tnx32_8, call_k_ctt_avx, "cplx_to_tnx32_ref"},
+    {"vec_znx_add_ref", OPF_KERNEL, plan_binary, call_k_vadd_ref}, {"vec_znx_add_avx", OPF_KERNEL | OPF_AVX, plan_binary, call_k_vadd_avx, "vec_znx_add_ref"},
+    {"vec_znx_sub_ref", OPF_KERNEL, plan_binary, call_k_vsub_ref}, {"vec_znx_sub_avx", OPF_KERNEL | OPF_AVX, plan_binary, call_k_vsub_avx, "vec_znx_sub_ref"},
+    {"vec_znx_negate_ref", OPF_KERNEL, plan_unary, call_k_vneg_ref}, {"vec_znx_negate_avx", OPF_KERNEL | OPF_AVX, plan_unary, call_k_vneg_avx, "vec_znx_negate_ref"},
+    {"fft64_vmp_prepare_contiguous_ref", OPF_KERNEL, plan_vmp_prepare, call_k_vmp_prep_ref}, {"fft64_vmp_prepare_contiguous_avx", OPF_KERNEL | OPF_AVX, plan_vmp_prepare, call_k_vmp_prep_avx, "fft64_vmp_prepare_contiguous_ref"},
+    {"fft64_vmp_apply_dft_ref", OPF_KERNEL, plan_vmp_apply, call_k_vmp_apply_ref}, {"fft64_vmp_apply_dft_avx", OPF_KERNEL | OPF_AVX, plan_vmp_apply, call_k_vmp_apply_avx, "fft64_vmp_apply_dft_ref"},
+    {"fft64_vmp_apply_dft_to_dft_ref", OPF_KERNEL, plan_vmp_apply_dft_to_dft, call_k_vmp_d2d_ref}, {"fft64_vmp_apply_dft_to_dft_avx", OPF_KERNEL | OPF_AVX, plan_vmp_apply_dft_to_dft, call_k_vmp_d2d_avx, "fft64_vmp_apply_dft_to_dft_ref"},
+    {"reim_fft16_ref", OPF_KERNEL, plan_leaf16, call_l_fft16_ref}, {"reim_fft16_avx_fma", OPF_KERNEL | OPF_AVX, plan_leaf16, call_l_fft16_avx, "reim_fft16_ref"},
+    {"reim_ifft16_ref", OPF_KERNEL, plan_leaf16, call_l_ifft16_ref}, {"reim_ifft16_avx_fma", OPF_KERNEL | OPF_AVX, plan_leaf16, call_l_ifft16_avx, "reim_ifft16_ref"},
+    {"reim_fft8_ref", OPF_KERNEL, plan_leaf8, call_l_fft8_ref}, {"reim_fft8_avx_fma", OPF_KERNEL | OPF_AVX, plan_leaf8, call_l_fft8_avx, "reim_fft8_ref"},
+    {"reim_ifft8_ref", OPF_KERNEL, plan_leaf8, call_l_ifft8_ref}, {"reim_ifft8_avx_fma", OPF_KERNEL | OPF_AVX, plan_leaf8, call_l_ifft8_avx, "reim_ifft8_ref"},
+    {"reim_fft4_ref", OPF_KERNEL, plan_leaf4, call_l_fft4_ref}, {"reim_fft4_avx_fma", OPF_KERNEL | OPF_AVX, plan_leaf4, call_l_fft4_avx, "reim_fft4_ref"},
+    {"reim_ifft4_ref", OPF_KERNEL, plan_leaf4, call_l_ifft4_ref}, {"reim_ifft4_avx_fma", OPF_KERNEL | OPF_AVX, plan_leaf4, call_l_ifft4_avx, "reim_ifft4_ref"},
+    {"cplx_fft16_ref", OPF_KERNEL, plan_leaf16, call_l_cfft16_ref}, {"cplx_fft16_avx_fma", OPF_KERNEL | OPF_AVX, plan_leaf16, call_l_cfft16_avx, "cplx_fft16_ref"},
+    {"cplx_ifft16_ref", OPF_KERNEL, plan_leaf16, call_l_cifft16_ref}, {"cplx_ifft16_avx_fma", OPF_KERNEL | OPF_AVX, plan_leaf16, call_l_cifft16_avx, "cplx_ifft16_ref"},
     {"reim_to_znx64(fresh table)", OPF_TABLE, plan_s_to_znx64, call_fresh_to_znx64},
     {"cplx_to_tnx32(fresh table)", OPF_TABLE, plan_s_cplx_to_tnx32, call_fresh_cplx_to_tnx32},
     {"reim_fft_simple", OPF_SIMPLE, plan_inplace_d, call_s_reim_fft, "reim_fft"}, {"reim_ifft_simple", OPF_SIMPLE, plan_inplace_d, call_s_reim_ifft, "reim_ifft"},
@@ -869,4 +1075,8 @@ uint64_t env_hash(const env_t* e, uint64_t* bytes) {
   h = hb(h, e->bbc, sizeof *e->bbc, &b);
   if (bytes) *bytes = b;
   return h;
+}
+
+void vp_list_ops(void) {
+  for (int i = 0; i < N_CAT_OPS; i++) printf("%s\t%u\t%s\n", OPS[i].name, OPS[i].flags, OPS[i].twin ? OPS[i].twin : "-");
 }
